@@ -139,7 +139,12 @@ C02_WriteSafe ==
                 \* that was relabelled after (or unseen by) that observation
                 ELSE IF IsAdoption(E, C) /\ C.selOK /\ Lookup(C.obs, Key(E)).live /\ Lookup(C.obs, Key(E)).uid = E.pre.uid
                         /\ Matches(C.sel, Lookup(C.obs, Key(E)).labels) /\ ~Matches(C.sel, E.pre.labels)
-                THEN "Sig_C02_AdoptStaleLabels" ELSE "-",
+                THEN "Sig_C02_AdoptStaleLabels"
+                \* known-finding signature: the server-side-apply branch addresses children by NAME with force and without
+                \* any uid / resourceVersion condition; here it landed on an object that is not (any more) controlled by the
+                \* parent but is not controlled by anybody else either
+                ELSE IF E.verb \in {"apply", "jsonpatch"} /\ E.pre.ctrl = ""
+                THEN "Sig_C02_SsaByName" ELSE "-",
                 <<E.verb, Key(E), "ctrl", E.pre.ctrl, "parent", PUid,
                   "obsCtrl", Observed(C, Key(E)).ctrl, "obsUid", Observed(C, Key(E)).uid, "uid", E.pre.uid>>)
 \* what the mechanisms guarantee: controlled in the version the actor observed AND the
@@ -151,7 +156,9 @@ C02_WriteSafeObserved ==
   => LET o == Observed(C, Key(E)) IN
      \/ (o.live /\ o.ctrl = PUid /\ HasMarker(o, C) /\ Pinned(E, o))
      \/ (IsAdoption(E, C) /\ o.live /\ o.ctrl = "" /\ Pinned(E, o))
-     \/ Report("C02", "C02_WriteSafeObserved", <<E.verb, Key(E), "obsCtrl", o.ctrl, "parent", PUid, "precond", E.opt.precondUid, "obsUid", o.uid>>)
+     \/ ReportS("C02", "C02_WriteSafeObserved",
+                IF E.verb \in {"apply", "jsonpatch"} /\ E.pre.ctrl \in {"", PUid} THEN "Sig_C02_SsaByName" ELSE "-",
+                <<E.verb, Key(E), "obsCtrl", o.ctrl, "parent", PUid, "precond", E.opt.precondUid, "obsUid", o.uid>>)
 C02_DeleteUidPrecond ==
   (ReqE /\ IsOwnedKind(E) /\ E.verb = "delete")
   => \/ (E.opt.precondUid # "" /\ (Key(E) \in DOMAIN C.obs => E.opt.precondUid = C.obs[Key(E)].uid))
@@ -236,6 +243,7 @@ Reached(c) == c.nHooks = 1 /\ c.hookOK /\ ~c.gateBad /\ "shape" \notin DOMAIN ex
 \* last-applied equals desired, and every desired field/label is present with that value
 LAOf(d) == [p \in { q \in DOMAIN d.fields : TRUE } |-> d.fields[p]]
 SameAsDesired(o, d) ==
+  /\ d.owners = <<>> /\ d.fins = <<>> /\ ~d.hasLA /\ d.rv = 0 /\ d.uid = ""     \* (the hook says nothing about metadata the merge treats specially)
   /\ SubFn(d.fields, o.fields) /\ SubFn(d.labels, o.labels) /\ SubFn(d.ann, o.ann)
   /\ o.hasLA
   /\ \A p \in DOMAIN d.fields : p \in DOMAIN o.la /\ o.la[p] = d.fields[p]
@@ -274,7 +282,23 @@ C01_QuietAfterQuiet ==
 C01_Bounded ==
   (IsEv("End") /\ HasExpect("fix"))
   => \/ (AtFix(store) /\ \A a \in DOMAIN ctx : ~ctx[a].wrote /\ ctx[a].childReqs = 0 /\ ctx[a].result = "ok")
-     \/ Report("C01", "C01_Bounded", <<"not converged and quiet after the bound", "owned", OwnedNow(store), "fix", FixKeys,
+     \/ ReportS("C01", "C01_Bounded",
+                \* known-finding signature: the hook hands observed children back verbatim -- resourceVersion included --,
+                \* the last-applied record therefore changes with every write, and every write changes the resourceVersion
+                IF AtFix(store) /\ \E a \in DOMAIN ctx : \E i \in DOMAIN ctx[a].resp.children : ctx[a].resp.children[i].rv # 0
+                THEN "Sig_C01_EchoedResourceVersion"
+                \* known-finding signature: the hook's desired child itself lists the parent as a plain (non-controller) owner;
+                \* the controller reference is appended next to it, and the two entries with one uid never merge to a stable list
+                ELSE IF \E a \in DOMAIN ctx : \E i \in DOMAIN ctx[a].resp.children : \E j \in DOMAIN ctx[a].resp.children[i].owners :
+                          ctx[a].resp.children[i].owners[j].uid = expect.parentUid /\ ~ctx[a].resp.children[i].owners[j].ctrl
+                THEN "Sig_C01_DesiredPlainOwnerRefToParent"
+                \* known-finding signature: an echoing hook under a Recreate strategy: the answer for an observed child (the
+                \* object handed back) and for a missing one (built from scratch) are recorded differently, so the child is
+                \* deleted and re-created in turn
+                ELSE IF (\E i \in DOMAIN cfg.children : "method" \in DOMAIN cfg.children[i] /\ cfg.children[i].method \in {"Recreate", "RollingRecreate"})
+                        /\ "echo" \in DOMAIN expect
+                THEN "Sig_C01_EchoUnderRecreate" ELSE "-",
+                <<"not converged and quiet after the bound", "owned", OwnedNow(store), "fix", FixKeys,
                                         "lastSyncWrote", [a \in DOMAIN ctx |-> ctx[a].wrote], "lastSyncChildRequests", [a \in DOMAIN ctx |-> ctx[a].childReqs],
                                         "result", [a \in DOMAIN ctx |-> ctx[a].result]>>)
 
@@ -312,7 +336,12 @@ C06_Method ==
      \/ (m \in {"InPlace", "RollingInPlace"} /\ E.verb = "update")
      \/ Report("C06", "C06_Method", <<"method", m, "request", E.verb, Key(E)>>)
 C06_DeletingNoWrite ==
-  (C06Scope /\ C.obs[Key(E)].deleting) => Report("C06", "C06_DeletingNoWrite", <<E.verb, Key(E)>>)
+  /\ (C06Scope /\ C.obs[Key(E)].deleting) => Report("C06", "C06_DeletingNoWrite", <<E.verb, Key(E)>>)
+  \* ... nor does a write land on a child that started terminating behind a stale cache (the stale
+  \* resourceVersion of an in-place update makes the API server refuse it)
+  /\ (ReqE /\ IsChildReq(E) /\ Reached(C) /\ E.verb \in {"update", "apply", "jsonpatch"} /\ Accepted(E) /\ E.pre.live /\ E.pre.deleting
+        /\ E.post # E.pre /\ ~("apply" \in DOMAIN cfg /\ cfg.apply = "ssa") /\ ~IsAdoption(E, C) /\ ~IsRelease(E, C))
+       => Report("C06", "C06_DeletingNoWrite", <<"accepted", E.verb, Key(E), "on a child pending deletion">>)
 C06_EqualNoWrite ==
   (C06Scope /\ Key(E) \in DesiredKeys(C) /\ ~AnyRolling /\ SameAsDesired(C.obs[Key(E)], DesiredOf(C, Key(E))))
   => Report("C06", "C06_EqualNoWrite", <<E.verb, Key(E)>>)
